@@ -320,6 +320,17 @@ Definition cs_of_obs (o : obs) : amap (N * N) cstate :=
 Definition fake_after (fake : list N) (s : tstep) : list N :=
   match s with TExec _ sender (Receive _ _ _ _) _ _ _ _ => sender :: fake | _ => fake end.
 
+(* acceptance of which steps belongs to which property's slice: C12 speaks about transfers, packets,
+   acknowledgements and timeouts; C18 about the governance calls and migrations; C11 about amounts only *)
+Definition owns_acceptance (prop : N) (s : tstep) : bool :=
+  match prop, s with
+  | 12, (TSend _ _ _ _ _ _ _ _ _ | TRecv _ _ _ _ _ _ | TFail _ _ _ _ _ _ _) => true
+  | 12, TExec _ _ (Transfer _ _ _ _ _ | Receive _ _ _ _) _ _ _ _ => true
+  | 18, TExec _ _ (Allow _ _ | UpdateAdmin _) _ _ _ _ => true
+  | 18, TMigrate _ _ _ _ => true
+  | _, _ => false
+  end.
+
 (* result codes: 100+c clause c of the property's contract; 120 accounting identity (C12);
    50 state differs; 52 holdings differ; 49 acceptance differs; 51 messages differ *)
 Fixpoint check_steps (prop : N) (keys : list N) (i : N) (w : world) (fake : list N) (g : ghost) (prev : obs)
@@ -344,7 +355,9 @@ Fixpoint check_steps (prop : N) (keys : list N) (i : N) (w : world) (fake : list
                 | TSetVersion v a => mkW (with_cs (set_version (w_st w) v) (cs_of_obs a)) (w_hold w)
                 | _ => match wop_of s with Some (blk, o) => wstep w blk o | None => w end
                 end in
-      if negb (Bool.eqb hm ho) then [(i, 49)]
+      if negb (Bool.eqb hm ho) then (if owns_acceptance prop s then [(i, 49)] else [])
+           (* whether a call is admitted is the business of the property that speaks about that call; for the others the
+              rest of this history is not comparable any more and is dropped *)
       else if negb (corr_state (w_st w') post) then [(i, 50)]
       else if (prop =? 11) && negb (corr_hold w' post) then [(i, 52)]
       else if ho && negb (list_eqb msg_eqb mm mo) then [(i, 51)]
